@@ -147,27 +147,35 @@ impl Hash for LuaType {
             LuaType::Call(a) => (23, a).hash(state),
             LuaType::Tuple(a) => (25, a).hash(state),
             LuaType::DocFunction(a) => (26, a).hash(state),
-            LuaType::Object(a) => (27, Arc::as_ptr(a)).hash(state),
-            LuaType::Union(a) => (28, Arc::as_ptr(a)).hash(state),
-            LuaType::Intersection(a) => (29, Arc::as_ptr(a)).hash(state),
-            LuaType::Generic(a) => (30, Arc::as_ptr(a)).hash(state),
-            LuaType::TableGeneric(a) => (31, Arc::as_ptr(a)).hash(state),
-            LuaType::TplRef(a) => (32, Arc::as_ptr(a)).hash(state),
-            LuaType::StrTplRef(a) => (33, Arc::as_ptr(a)).hash(state),
-            LuaType::Variadic(a) => (34, Arc::as_ptr(a)).hash(state),
+            // `==` on these variants is structural, so the hash must be derived from the contents
+            // too (equal values must hash equally, or `HashSet` based de-duplication such as
+            // `LuaType::from_vec` keeps structurally equal members from different allocations).
+            LuaType::Object(a) => (27, a.get_fields().len(), a.get_index_access()).hash(state),
+            LuaType::Union(a) => match a.as_ref() {
+                LuaUnionType::Basic(basic) => (28, 0, basic).hash(state),
+                LuaUnionType::Nullable(inner) => (28, 1, inner).hash(state),
+                // `Multi == Multi` ignores member order
+                LuaUnionType::Multi(types) => (28, 2, types.len()).hash(state),
+            },
+            LuaType::Intersection(a) => (29, a).hash(state),
+            LuaType::Generic(a) => (30, a).hash(state),
+            LuaType::TableGeneric(a) => (31, a).hash(state),
+            LuaType::TplRef(a) => (32, a).hash(state),
+            LuaType::StrTplRef(a) => (33, a.get_tpl_id(), a.get_name()).hash(state),
+            LuaType::Variadic(a) => (34, a).hash(state),
             LuaType::DocBooleanConst(a) => (35, a).hash(state),
             LuaType::Signature(a) => (36, a).hash(state),
             LuaType::Instance(a) => (37, a).hash(state),
             LuaType::DocStringConst(a) => (38, a).hash(state),
             LuaType::DocIntegerConst(a) => (39, a).hash(state),
             LuaType::Namespace(a) => (40, a).hash(state),
-            LuaType::MultiLineUnion(a) => (43, Arc::as_ptr(a)).hash(state),
-            LuaType::TypeGuard(a) => (44, Arc::as_ptr(a)).hash(state),
+            LuaType::MultiLineUnion(a) => (43, a).hash(state),
+            LuaType::TypeGuard(a) => (44, a).hash(state),
             LuaType::Never => 45.hash(state),
             LuaType::Language(a) => (46, a).hash(state),
             LuaType::ModuleRef(a) => (47, a).hash(state),
-            LuaType::Conditional(a) => (48, Arc::as_ptr(a)).hash(state),
-            LuaType::Mapped(a) => (49, Arc::as_ptr(a)).hash(state),
+            LuaType::Conditional(a) => (48, a).hash(state),
+            LuaType::Mapped(a) => (49, a).hash(state),
         }
     }
 }
